@@ -157,6 +157,12 @@ pub fn run(ctx: &mut Ctx) {
                 let mut x = vec![[0u8; 64]; 8];
                 for b in x.iter_mut() { b.copy_from_slice(&ctx.rng.bytes(64)); }
                 if i % 7 == 0 { set_sym(&mut x, 0, 0); set_sym(&mut x, 1, 1); set_sym(&mut x, 2, 65535); }
+                // all-zero / half-zero 64-byte chunks in the middle of the buffer (data-dependent shortcuts)
+                if i % 3 == 1 {
+                    let z = ctx.rng.below(7);
+                    x[z] = [0u8; 64];
+                    if ctx.rng.chance(1, 2) { let h = ctx.rng.below(8); for t in 0..32 { x[(z + 3) % 8][(h % 2) * 32 + t] = 0; } }
+                }
                 let before = x.clone();
                 p.mul(&mut x, m as u16);
                 for s in 0..256 {
